@@ -24,7 +24,7 @@ structure Reply where
 deriving Repr
 
 /-- a plan step as the executor sees it: `strip` = the step's parent type is not a root type; `nodeParent` = it is
-    `Node`; every dependent comes with the facts `findPts` needs about its insertion point below this step's own -/
+    `Node`, or the step hangs off a step the gateway answers itself (an object no service vouched for); every dependent comes with the facts `findPts` needs about its insertion point below this step's own -/
 inductive XStep where
   | mk (sid : Nat) (strip nodeParent : Bool) (kids : List (List PInfo × XStep))
 deriving Repr
